@@ -116,15 +116,38 @@ func runPIPE4(c *load.Ctx, r *report.RuleResult) {
 				}
 			}
 		}
+		kindStart := start
 		for _, name := range k.checks {
+			start := kindStart
 			key := fmt.Sprintf("kindcheck|%s|%s", k.typ, name)
 			target := c.Func(pkgChecker, "checkSchema."+name)
-			if start == nil || target == nil {
-				r.Unk(key, c.Pos(fn.Pos()), "the branch for this node kind or the check function was not found")
+			if target == nil {
+				r.Unk(key, c.Pos(fn.Pos()), "the check function was not found")
 				continue
 			}
+			if start == nil {
+				// no branch of its own for this kind: its checks are the ones made for every node
+				start = fn.Blocks[0]
+			}
 			memo := map[*ssa.Function]int{}
-			if mustReach(start, 0, target, memo, 0) {
+			// a call made for every kind before the kinds are told apart counts as well: a call site (of the
+			// check or of a helper that always makes it) whose block dominates the branch
+			before := false
+			for _, b := range fn.Blocks {
+				if !(b == start || b.Dominates(start)) {
+					continue
+				}
+				for _, ins := range b.Instrs {
+					if call, ok := ins.(*ssa.Call); ok {
+						if sc := call.Call.StaticCallee(); sc != nil {
+							if sc == target || (load.FuncInModule(sc) && mustCallSummary(sc, target, memo, 1)) {
+								before = true
+							}
+						}
+					}
+				}
+			}
+			if before || mustReach(start, 0, target, memo, 0) {
 				r.OK(key, c.Pos(fn.Pos()), "reached on every path from the branch of this kind to a normal return")
 			} else {
 				r.Bad(key, c.Pos(fn.Pos()), fmt.Sprintf("a %s can pass checkNode without %s being applied to it (a path from the branch of this kind to a normal return calls it neither directly nor through a helper that always does)", k.typ, name))
